@@ -169,4 +169,14 @@ theorem stale_counter_refuses_save :
     (saveSizeG unitF ⟨24, none⟩ (.arr (.cons (.arr .nil) .nil))).isSome = true := by
   refine ⟨by decide, by decide⟩
 
+/-- the table released but its pointer kept (capacity 0, pointer set): the growth loop `while ((cap <<= 1) <= depth)`
+never gets above 0 — the model's fuel runs out for every fuel -/
+theorem zero_capacity_with_a_table_never_ends (depth fuel : Nat) : ensure ⟨true, 0⟩ depth fuel = none := by
+  have h : ∀ f, growCap depth f 0 = none := by
+    intro f
+    induction f with
+    | zero => rfl
+    | succ f ih => rw [growCap]; simp [ih]
+  simp [ensure, h]
+
 end NV.C16.Witness
